@@ -98,7 +98,7 @@ func faultRun(ctx context.Context, cfg Config, p0 *Program, pi, run int, f *deco
 				env.Hub.Record = true
 			}
 		}
-		ok, err := r.RunTxn(ctx, label, &p, spec, ff)
+		_, err := r.RunTxn(ctx, label, &p, spec, ff)
 		if err != nil {
 			r.Rec.Add(Ev{Ev: "HarnessError", Note: errs(err)})
 			break
@@ -112,8 +112,9 @@ func faultRun(ctx context.Context, cfg Config, p0 *Program, pi, run int, f *deco
 				kinds = stepKinds(evs, label, n)
 			}
 			r.Observe(ctx, &p)
-			if f != nil && !ok {
-				// fault-free retry of the same changes must commit (no blockage, no expiry wait)
+			if f != nil {
+				// a fault-free transaction making the same changes afterwards must commit (no blockage, no expiry
+				// wait): the retry when the victim failed, a follow-up when the fault was absorbed
 				ok2, err := r.RunTxn(ctx, label+"r", &p, spec, nil)
 				if err != nil {
 					r.Rec.Add(Ev{Ev: "HarnessError", Note: errs(err)})
